@@ -6,7 +6,8 @@ from fractions import Fraction
 import common as C
 
 PROP = 'C20'
-THEOREMS = []
+THEOREMS = ['gfilt_length_thm', 'gfilt_linear_thm', 'gfilt_const_thm', 'gfilt_bounds_thm', 'gfilt_reverse_thm',
+            'gfilt2d_columnwise', 'rm_length', 'rm_eq_window', 'rm_w1_id']
 CONFIGS = [dict(jit=True)]
 RULE = ('random real series and tables (1..500 rows, 1..6 columns; also a single row), sigma in (0, 50], all '
         'running-mean windows 1..n (odd and even, also > 32), plus 3-d input. The Gaussian weights are '
